@@ -2,7 +2,7 @@ from ..streams import loads, jac_wingbox
 from ..oracles import c16
 
 STREAMS = [loads.stream_weight_cg, loads.stream_dist_loads, loads.stream_point_loads, jac_wingbox.stream_section_properties_wingbox]
-ORACLES = [c16.oracle_loads]
+ORACLES = [c16.oracle_loads, c16.oracle_total_loads_in_groups]
 UNPROVED = []
 ASSUMPTIONS = [
     "theorems over R; models tied to Weight, StructuralCG, StructureWeightLoads, FuelLoads, WingboxFuelVol, WingboxFuelVolDelta, ComputePointMassLoads, ComputeThrustLoads, TotalLoads by differential execution (left/right/full beams, ny 2..5 quick / 2..13 thorough, all 8 TotalLoads option sets)",
